@@ -89,7 +89,7 @@ PROPS = {
             [rnd("both", "iter", 40000, 60)]),
     ),
     "C10": dict(
-        theorems=[],
+        theorems=[], mode="faults",
         gens=tiers(
             [rnd("both", "fuse", 3000, 50)],
             [rnd("both", "fuse", 30000, 60)]),
